@@ -4,6 +4,8 @@
            observations : list (pidx t status refs npending)
              the implementation's own ApplyUpdatesUpTo(t) on a deep copy of annotated parent pidx
              status 0 ok | 1 UpdateIndexOutOfRangeError
+           after : list (list update)   the update lists of the annotated objects read again
+             after the observations (taken from shallow copies sharing the Updates slice)
    codes: 1 model <> implementation (annotation result, or state after ApplyUpdatesUpTo);
           2 the property fails on the observation (see [j2]); 3 osm.CommitInfoStart at run time differs
           from the time.Date literal in the source (translator); 0 did not parse. *)
@@ -380,11 +382,14 @@ Definition j2 (i : ainput) (o : outcome) (obs : list tobs) : bool :=
   else error_ok i o.
 
 Definition check_main : P (list Z) :=
-  i <- pinput ;; o <- poutcome ;; obs <- plist ptobs ;;
+  i <- pinput ;; o <- poutcome ;; obs <- plist ptobs ;; after <- plist (plist pupdate) ;;
   let m := model_outcome i in
   let j1 := outcome_matches i m o && ((negb (oc_status o =? 0)) || forallb (tobs_matches i m) obs) in
+  (* input immutability of ApplyUpdatesUpTo: the update lists of the annotated objects, read again
+     after all the snapshots were taken from shallow copies, are the lists returned by annotate *)
+  let unchanged := negb (oc_status o =? 0) || list_eqb (list_eqb update_eqb) (oc_updates o) after in
   (* 3: the CommitInfoStart the implementation runs with is the one written in update.go *)
-  ret (code_if j1 1 ++ code_if (j2 i o obs) 2 ++ code_if (i_cis i =? commit_info_start) 3)%list.
+  ret (code_if j1 1 ++ code_if (j2 i o obs && unchanged) 2 ++ code_if (i_cis i =? commit_info_start) 3)%list.
 
 Definition check_case (t : toks) : list Z :=
   match parse_all (tag <- pint ;; if tag =? 1 then check_main else pfail) t with
